@@ -36,10 +36,10 @@ func (e *c17CtxErr) Error() string { return fmt.Sprintf("c17 producer %d: %v", e
 func (e *c17CtxErr) Unwrap() error { return e.err }
 
 type c17LateProd struct {
-	tok     chan struct{} // the script releases one late step
-	acted   chan struct{} // the producer has taken it
-	mu      sync.Mutex
-	left    int // late steps not taken yet (0 once the producer has ended)
+	tok   chan struct{} // the script releases one late step
+	acted chan struct{} // the producer has taken it
+	mu    sync.Mutex
+	left  int // late steps not taken yet (0 once the producer has ended)
 }
 
 func (lp *c17LateProd) stepsLeft() int {
@@ -59,7 +59,7 @@ type c17LateEnv struct {
 
 func c17NewLateEnv(c *c17Case) *c17LateEnv {
 	n := len(c.Calls)
-	return &c17LateEnv{free: c.Mode != "stream" || c.Host == "graphConcat", prods: make([]*c17LateProd, n), done: make(chan struct{})}
+	return &c17LateEnv{free: c.Mode != "stream" || c17ConcatHost(c), prods: make([]*c17LateProd, n), done: make(chan struct{})}
 }
 
 func (c *c17Case) hasLate() bool {
